@@ -807,6 +807,21 @@ class HelperInliner:
                             block[i:i + 1] = [pre_, st]
                             self._hoisted = getattr(self, "_hoisted", set()) | {id(pre_)}
                             continue
+                if not done and isinstance(st, ast.Assign) and len(st.targets) == 1 and isinstance(st.targets[0], ast.Name) and isinstance(st.value, ast.Call) \
+                        and isinstance(st.value.func, ast.Name) and st.value.func.id in ("list", "tuple") and len(st.value.args) == 1 and not st.value.keywords \
+                        and isinstance(st.value.args[0], ast.Call):
+                    rg = self.resolve(st.value.args[0], fn, cls, qual)
+                    if rg is not None and any(isinstance(n, (ast.Yield, ast.YieldFrom)) for n in ast.walk(rg[0])) and st.value.func.id == "list":
+                        # x = list(helper_generator(...))  ->  x = []; for _e in helper_generator(...): x.append(_e)
+                        self.counter += 1
+                        ev_ = f"__e{self.counter}"
+                        init = ast.copy_location(ast.Assign(targets=[ast.Name(id=st.targets[0].id, ctx=ast.Store())], value=ast.List(elts=[], ctx=ast.Load())), st)
+                        app = ast.Expr(value=ast.Call(func=ast.Attribute(value=ast.Name(id=st.targets[0].id, ctx=ast.Load()), attr="append", ctx=ast.Load()),
+                                                      args=[ast.Name(id=ev_, ctx=ast.Load())], keywords=[]))
+                        loop_ = ast.copy_location(ast.For(target=ast.Name(id=ev_, ctx=ast.Store()), iter=st.value.args[0], body=[app], orelse=[]), st)
+                        ast.fix_missing_locations(loop_)
+                        block[i:i + 1] = [init, loop_]
+                        continue
                 if not done and isinstance(st, ast.For) and isinstance(st.iter, ast.Call) and not st.orelse:
                     g = self._inline_generator(st, fn, cls, qual)
                     if g is not None:
